@@ -1,5 +1,5 @@
 (** C15: what the tight K1 row (cut budget shared by all workers where the blocker may run) guarantees. *)
-From HQ Require Import Base.Prelude Gen.Consts Sched.Model.
+From HQ Require Import Base.Prelude Gen.Consts Sched.Model Sched.ProofsRows.
 Require Import ZifyBool ZifyN ZifyNat.
 Open Scope N_scope.
 
@@ -37,4 +37,163 @@ Proof.
   destruct (excess_bounds I bs s l h (i_workers I)) as [H1 H2]. split.
   - intros w Hw Hc. specialize (H1 w Hw Hc). lia.
   - lia.
+Qed.
+
+(** * What the gap guarantees: tasks placed into the gap never take room the blocker class could use *)
+
+Lemma rv_remove_multiple_get : forall rq v n v', rv_remove_multiple v rq n = Ok v' ->
+  forall r, rv_get v' r = rv_get v r - amount rq r * n.
+Proof.
+  induction rq as [|[r0 a] t IH]; intros v n v' H r; simpl in H.
+  - inversion H; subst. unfold amount. simpl. lia.
+  - destruct (Nat.ltb_spec (N.to_nat r0) (length v)) as [Hin|]; [|discriminate].
+    rewrite (IH _ _ _ H r), rv_get_set by assumption.
+    unfold amount. simpl. fold (amount t r).
+    destruct (N.eqb_spec r r0) as [->|Hne].
+    + rewrite N.eqb_refl. lia.
+    + destruct (N.eqb_spec r0 r); [congruence|]. lia.
+Qed.
+
+(** demand of the assigned tasks that are not of class [h] *)
+Definition demand_except (I : inst) (assigned : list N) (h r : N) : N :=
+  fold_right (fun rq acc => (if rq =? h then 0 else amount (req_of I rq) r) + acc) 0 assigned.
+
+Lemma remove_assigned_get : forall I assigned free h f', remove_assigned I free assigned h = Ok f' ->
+  forall r, rv_get f' r = rv_get free r - demand_except I assigned h r.
+Proof.
+  induction assigned as [|rq t IH]; intros free h f' H r; simpl in H.
+  - inversion H; subst. unfold demand_except. simpl. lia.
+  - unfold demand_except. simpl. fold (demand_except I t h r). destruct (rq =? h).
+    + rewrite (IH _ _ _ H r). lia.
+    + destruct (rv_remove_multiple free (req_of I rq) 1) as [f1| |] eqn:E; simpl in H; try discriminate.
+      rewrite (IH _ _ _ H r), (rv_remove_multiple_get _ _ _ _ E r). lia.
+Qed.
+
+Definition count_class (assigned : list N) (h : N) : N := nlen (filter (fun rq => rq =? h) assigned).
+
+Lemma demand_cons : forall I rq t r, demand I (rq :: t) r = amount (req_of I rq) r + demand I t r.
+Proof. reflexivity. Qed.
+Lemma demand_except_cons : forall I rq t h r,
+  demand_except I (rq :: t) h r = (if rq =? h then 0 else amount (req_of I rq) r) + demand_except I t h r.
+Proof. reflexivity. Qed.
+Lemma count_class_cons : forall rq t h, count_class (rq :: t) h = (if rq =? h then 1 else 0) + count_class t h.
+Proof. intros. unfold count_class. simpl. destruct (rq =? h); unfold nlen; simpl; lia. Qed.
+
+Lemma demand_split : forall I assigned h r,
+  demand I assigned r = count_class assigned h * amount (req_of I h) r + demand_except I assigned h r.
+Proof.
+  intros I assigned h r. induction assigned as [|rq t IH]; [reflexivity|].
+  rewrite demand_cons, demand_except_cons, count_class_cons, IH.
+  destruct (N.eqb_spec rq h) as [->|Hne]; lia.
+Qed.
+
+(** requests with at most one entry per resource *)
+Definition request_nodup (rq : request) : Prop := NoDup (map fst rq).
+
+Lemma amount_entry : forall rq e, request_nodup rq -> In e rq -> amount rq (fst e) = snd e.
+Proof.
+  induction rq as [|x t IH]; intros e Hnd Hin; [contradiction|].
+  unfold request_nodup in Hnd. simpl in Hnd. inversion Hnd as [|? ? Hx Hnd']; subst.
+  unfold amount. simpl. fold (amount t (fst e)). destruct Hin as [->|Hin].
+  - rewrite N.eqb_refl. assert (Hz : amount t (fst e) = 0).
+    { clear - Hx. induction t as [|y t IH]; [reflexivity|]. unfold amount. simpl. fold (amount t (fst e)).
+      destruct (N.eqb_spec (fst y) (fst e)) as [E|_]; [exfalso; apply Hx; left; assumption|].
+      rewrite IH; [lia|]. intros H. apply Hx. right. assumption. }
+    lia.
+  - destruct (N.eqb_spec (fst x) (fst e)) as [E|_].
+    + exfalso. apply Hx. rewrite E. apply in_map. assumption.
+    + rewrite (IH e Hnd' Hin). lia.
+Qed.
+
+Lemma amount_zero_or_entry : forall rq r, amount rq r = 0 \/ exists e, In e rq /\ fst e = r /\ 0 < snd e.
+Proof.
+  induction rq as [|x t IH]; intros r; [left; reflexivity|].
+  unfold amount. simpl. fold (amount t r). destruct (N.eqb_spec (fst x) r) as [E|Hne].
+  - destruct (N.eq_dec (snd x) 0) as [Hz|Hnz].
+    + destruct (IH r) as [H0|(e & He & Hr & Hp)]; [left; lia|right; exists e; simpl; auto].
+    + right. exists x. simpl. split; [left; reflexivity|split; [assumption|lia]].
+  - destruct (IH r) as [H0|(e & He & Hr & Hp)]; [left; lia|right; exists e; simpl; auto].
+Qed.
+
+(** [task_max_count v rq = k'] bounds every entry *)
+Lemma list_min_le : forall l m x, list_min l = Some m -> In x l -> m <= x.
+Proof.
+  induction l as [|y t IH]; intros m x H Hin; [contradiction|]. simpl in H.
+  destruct (list_min t) as [m'|] eqn:E.
+  - inversion H; subst. destruct Hin as [->|Hin]; [lia|]. specialize (IH m' x eq_refl Hin). lia.
+  - inversion H; subst. destruct Hin as [->|Hin]; [lia|]. destruct t; [contradiction|simpl in E; destruct (list_min t); discriminate].
+Qed.
+
+Lemma tmc_entry : forall v rq e k, In e rq -> 0 < snd e -> k <= task_max_count v rq -> k * snd e <= rv_get v (fst e).
+Proof.
+  intros v rq e k Hin Hpos Hk. unfold task_max_count in Hk.
+  destruct (list_min _) as [m|] eqn:E.
+  - assert (Hm : m <= N.min (rv_get v (fst e) / snd e) SCHED_MAX_TASK_PER_WORKER).
+    { eapply list_min_le; [exact E|]. apply in_map_iff. exists e. auto. }
+    assert (Hd : rv_get v (fst e) / snd e * snd e <= rv_get v (fst e)).
+    { pose proof (N.div_mod (rv_get v (fst e)) (snd e) ltac:(lia)). nia. }
+    nia.
+  - assert (k = 0) by lia. subst. lia.
+Qed.
+
+Lemma list_min_ge : forall l k, l <> [] -> (forall x, In x l -> k <= x) -> exists m, list_min l = Some m /\ k <= m.
+Proof.
+  induction l as [|y t IH]; intros k Hn Ha; [congruence|]. simpl. destruct t as [|z t'].
+  - simpl. exists y. split; [reflexivity|apply Ha; left; reflexivity].
+  - destruct (IH k) as (m & Hm & Hk); [discriminate|intros x Hx; apply Ha; right; assumption|].
+    rewrite Hm. exists (N.min y m). split; [reflexivity|]. specialize (Ha y (or_introl eq_refl)). lia.
+Qed.
+
+(** a count not reaching the cap that fits every entry is below [task_max_count] *)
+Lemma tmc_ge : forall v rq k, rq <> [] -> k < SCHED_MAX_TASK_PER_WORKER ->
+  (forall e, In e rq -> 0 < snd e /\ k * snd e <= rv_get v (fst e)) -> k <= task_max_count v rq.
+Proof.
+  intros v rq k Hne Hcap H. unfold task_max_count.
+  destruct (list_min_ge (map (fun e => N.min (rv_get v (fst e) / snd e) SCHED_MAX_TASK_PER_WORKER) rq) k) as (m & Hm & Hk).
+  - destruct rq; [congruence|discriminate].
+  - intros x Hx. apply in_map_iff in Hx. destruct Hx as (e & <- & He). destruct (H e He) as [Hp Hke].
+    assert (k <= rv_get v (fst e) / snd e) by (apply N.div_le_lower_bound; lia). lia.
+  - rewrite Hm. assumption.
+Qed.
+
+
+Theorem gap_leaves_room : forall I w h G,
+  gap_resources I w h = Ok G ->
+  request_wf (req_of I h) -> request_nodup (req_of I h) ->
+  (exists e, In e (req_of I h) /\ rv_get (w_res w) (fst e) / snd e < SCHED_MAX_TASK_PER_WORKER) ->
+  (forall r, rv_get (w_free w) r + demand I (w_assigned w) r = rv_get (w_res w) r) ->
+  forall (U : N -> N), (forall r, U r <= rv_get G r) ->
+  forall k, k <= task_max_count (w_free w) (req_of I h) ->
+  forall r, k * amount (req_of I h) r + U r <= rv_get (w_free w) r.
+Proof.
+  intros I w h G HG Hwf Hnd (e0 & He0 & Hsmall) Hacc U HU k Hk r.
+  unfold gap_resources in HG.
+  destruct (rv_remove_multiple (w_res w) (req_of I h) (task_max_count (w_res w) (req_of I h))) as [f1| |] eqn:E1;
+    simpl in HG; try discriminate.
+  pose proof (remove_assigned_get _ _ _ _ _ HG r) as HGr.
+  rewrite (rv_remove_multiple_get _ _ _ _ E1 r) in HGr.
+  set (m := task_max_count (w_res w) (req_of I h)) in *.
+  set (nh := count_class (w_assigned w) h).
+  pose proof (Hacc r) as Hr. rewrite (demand_split I (w_assigned w) h r) in Hr. fold nh in Hr.
+  specialize (HU r).
+  unfold request_wf in Hwf. rewrite Forall_forall in Hwf.
+  (* k + nh tasks of h fit the worker's total resources, hence k + nh <= m *)
+  assert (Hm : k + nh <= m).
+  { apply tmc_ge.
+    - intros E. rewrite E in He0. contradiction.
+    - assert (Hb : (k + nh) * snd e0 <= rv_get (w_res w) (fst e0)).
+      { pose proof (tmc_entry (w_free w) (req_of I h) e0 k He0 (Hwf e0 He0) Hk) as Hke.
+        pose proof (Hacc (fst e0)) as Hr0. rewrite (demand_split I (w_assigned w) h (fst e0)) in Hr0. fold nh in Hr0.
+        rewrite (amount_entry _ e0 Hnd He0) in Hr0. nia. }
+      assert (k + nh <= rv_get (w_res w) (fst e0) / snd e0).
+      { apply N.div_le_lower_bound; [specialize (Hwf e0 He0); lia|]. lia. }
+      lia.
+    - intros e He. split; [apply Hwf; assumption|].
+      pose proof (tmc_entry (w_free w) (req_of I h) e k He (Hwf e He) Hk) as Hke.
+      pose proof (Hacc (fst e)) as Hre. rewrite (demand_split I (w_assigned w) h (fst e)) in Hre. fold nh in Hre.
+      rewrite (amount_entry _ e Hnd He) in Hre. nia. }
+  destruct (amount_zero_or_entry (req_of I h) r) as [Hz|(e & He & Hfe & Hpe)].
+  - rewrite Hz in *. lia.
+  - subst r. rewrite (amount_entry _ e Hnd He) in *.
+    pose proof (tmc_entry (w_free w) (req_of I h) e k He Hpe Hk) as Hke. nia.
 Qed.
